@@ -36,10 +36,10 @@ static int w;                   /* wait-hook calls so far */
 static int mid_kind, mid_user, mid_cycle;       /* 0 none, 1 connect, 2 hang-up, 3 peer vanishes with output pending (send: EWOULDBLOCK, then EPIPE) */
 static long fl_word; static int full_flags, console_scripts = 6, full_backlog;
 /* which deviation kinds are offered (--dev=mask): 1 single-char mode, 2 special m/q, 4 special i/g (flags word), 8 mid-cycle connect/hang-up,
- * 16 mid-cycle vanishing peer, 32 long backlog */
-static long dev = 63;
+ * 16 mid-cycle vanishing peer, 32 long backlog, 64 special e/x/j (a command that raises an uncaught error) */
+static long dev = 127;
 static int selftest, midcycles = 4, force_m;
-static int shutdown_sent, drains, drain_limit = 6, bl_seen;
+static int shutdown_sent, drains, drain_limit = 6, bl_seen, cycle_error;
 static int last_served = -1;    /* for the command()-inside-one-turn check */
 static int cycle_no;            /* main cycle being evaluated (0 = set-up) */
 static int cycles_evaluated;
@@ -69,6 +69,9 @@ static void line_text (muser *u, int k, char *out) {   /* k = 1.. */
   else if (k == 1 && u->special == 2 && !u->cmode) strcpy (out, "q");
   else if (k == 1 && u->special == 3 && !u->cmode) strcpy (out, "i");
   else if (k == 1 && u->special == 4 && !u->cmode) strcpy (out, "g");
+  else if (k == 1 && u->special == 5 && !u->cmode) strcpy (out, "e");
+  else if (k == 1 && u->special == 6 && !u->cmode) strcpy (out, "x");
+  else if (k == 1 && u->special == 7 && !u->cmode) strcpy (out, "j");
   else sprintf (out, "%c%d", letter[ui], k);
 }
 
@@ -149,6 +152,8 @@ static void on_line (const char *l) {
     u->subs++;
     char want[8]; sprintf (want, "s%d", u->subs);
     if (strcmp (want, t)) fail_hist ("C12:command-efun-order", "user %c: command() call %d logged %s", letter[ui], u->subs, t);
+  } else if (!strcmp (a, "err")) {
+    cycle_error = 1;            /* an uncaught error follows: the loop leaves this command phase by longjmp */
   } else if (!strcmp (a, "gone") || !strcmp (a, "netdead")) {
     u->connected = 0;
   }
@@ -156,7 +161,7 @@ static void on_line (const char *l) {
 
 static void end_cycle (void) {
   for (int i = 0; i < NU; i++) { U[i].got = 0; U[i].got_text[0] = 0; }
-  last_served = -1;
+  last_served = -1; cycle_error = 0;
   nl_drain_log (on_line);
   if (last_served >= 0 && (U[last_served].subs == -1 || (U[last_served].subs > 0 && U[last_served].subs != 3)))
     fail_hist ("C12:command-efun-limited", "user %c ran 'm' but %d of its three command() calls were executed inside its turn", letter[last_served], U[last_served].subs < 0 ? 0 : U[last_served].subs);
@@ -183,7 +188,8 @@ static void end_cycle (void) {
       }
       vx_count (1, 1);
     }
-    if (u->expect && !u->got)
+    if (u->expect && !u->got && cycle_error) vx_count (4, 1);   /* put off to the next cycle by somebody's uncaught error (checked there) */
+    else if (u->expect && !u->got)
       fail_hist (u->cmode ? "C12:user-with-command-not-served:char-mode" : "C12:user-with-command-not-served",
                  "user %c had a complete command buffered when the command phase of cycle %d started and was not served in that cycle", letter[i], cycle_no);
     u->expect = 0;
@@ -329,8 +335,16 @@ static void body (void) {
       for (int k = 0; k < nit; k++) { list[nl] = fu; kind[nl++] = 3; }
       for (int k = 0; k < ngc; k++) { list[nl] = fu; kind[nl++] = 4; }
     }
+    /* `e` / `x` / `j`: the first line raises an uncaught error in process_input / in its verb / in the input_to callback that gets
+     * the second line, with further lines queued behind (dev bit 64); first eligible user */
+    int eu = -1, ju = -1;
+    for (int i = 0; i <= 3 && eu < 0; i++) if ((dev & 64) && U[i].live && U[i].n >= 2 && !U[i].cmode) eu = i;
+    for (int i = 0; i <= 3 && ju < 0; i++) if ((dev & 64) && U[i].live && U[i].n >= 3 && !U[i].cmode) ju = i;
+    int first_err = nl;
+    if (eu >= 0) { list[nl] = eu; kind[nl++] = 5; list[nl] = eu; kind[nl++] = 6; }
+    if (ju >= 0) { list[nl] = ju; kind[nl++] = 7; }
     int c = vx_choose (nl, "special");
-    if (c >= first_flag) fl_word = FW[kind[c] == 3 ? c - first_flag : c - first_flag - nit];
+    if (c >= first_flag && c < first_err) fl_word = FW[kind[c] == 3 ? c - first_flag : c - first_flag - nit];
     if (!c && force_m && nl > 1) c = 1;        /* self-test only: the first candidate's first line is `m` without costing a deviation */
     if (c) U[list[c]].special = kind[c];
   }
@@ -393,7 +407,7 @@ int main (int argc, char **argv) {
   selftest = (int) vx_opt_long ("selftest", 0);
   force_m = (int) vx_opt_long ("force-m", 0);
   console_scripts = (int) vx_opt_long ("console-scripts", 6);
-  dev = vx_opt_long ("dev", 63);
+  dev = vx_opt_long ("dev", 127);
   full_backlog = (int) vx_opt_long ("full-backlog", 0);  /* 1: 8 backlog variants for every eligible user; 0: 2 variants for the first one */
   full_flags = (int) vx_opt_long ("full-flags", 0);   /* 1: all 13 flag words for input_to and get_char; 0: {0x1000, 0x7fffffff, 0x80} / {0x1000} */
   midcycles = (int) vx_opt_long ("midcycles", 4);      /* mid-cycle connect / hang-up placed in cycles 1..midcycles */
@@ -409,5 +423,6 @@ int main (int argc, char **argv) {
   vx_count_name (1, "buffered_commands_served");
   vx_count_name (2, "cycles_evaluated");
   vx_count_name (3, "backlog_runs_in_shift_region");
+  vx_count_name (4, "turns_put_off_by_an_uncaught_error");
   return vx_run (argc, argv, body);
 }
